@@ -11,6 +11,35 @@
 //! branch target; the 3^8 product of per-site instruction forms × switch paddings; all permutations
 //! of a small pool, rotations/reversal/padding of a large one; attribute orders; attribute contents
 //! (kitchen sink variants, modules); versions; Utf8 boundary strings in every role; the javac corpus.
+//! Added by the extension (modules in `c01/`): byte-level attribute permutations (`perm`), far code
+//! offsets / 64 KiB methods / complete operand ranges / pool indices up to 65534 (`big`), per-bit
+//! flags, versions × minors, names, all UTF-16 code units, member-attachment products, bootstrap
+//! sharing, table cross products (`facts`), the CLDC `StackMap` arm (`cldc`), the reader's own
+//! resource limits met exactly (`limits`).
+//!
+//! Clause table (statement of C01 → where it is decided; oracle everywhere: `check_bytes` =
+//! sdiff(reference parse of the same bytes, projection of the tree the real reader returns), plus
+//! reference == source model for generated classes):
+//!
+//! | clause | decided in (space; "+" = added by the extension) |
+//! |---|---|
+//! | header: version | suite `versions-and-utf8` (45.0, 45.3, 46..67 .0, previews 56..66); + `facts::versions`: every major 45..=55 x 11 minors of every size class |
+//! | header: access flags, this/super/interfaces | suite sinks, corpus; + `facts::flags`: every single bit, 0, 0xFFFF, the JVMS mask and its complement of the class flag word; `facts::names`: 55 odd-but-valid names as this/super/interface; `limits`: 32000 interfaces |
+//! | every field and method with flags and descriptors | suite sinks, corpus; + `facts::flags` (field, method, inner-class, parameter, module, requires, exports, opens flag words bit by bit); `facts::names`; `limits` (65535 fields, 65535 methods) |
+//! | every instruction with its resolved operands | suite `instruction-samples`, shape sweeps, sink `<clinit>`; + `big::dense`: the complete operand range of bipush, sipush, narrow iinc, wide iinc (every index, every constant), every local index 0..=65535 of every load/store/ret in shortest, plain and wide form, newarray, multianewarray 1..=255, all ordered pairs of operand-free opcodes, all ordered pairs of the ~270 instruction samples with operands; `big::pool`: ldc/ldc_w/ldc2_w of ~55000 Integer/Long entries spread over all pool indices up to 65534; `facts::bootstrap`: all sequences of ≤ 3 condy/indy sites that share or do not share bootstrap methods, names, descriptors |
+//! | ... and branch targets | shape sweeps (every target at length ≤ L), `encoding-product`; + `big::far`: all 18 narrow opcodes at distances 32766..32769 / -32767..-32770 (thorough: windows of 16), goto_w/jsr_w over ±65530, tableswitch/lookupswitch arms 60000 bytes forward and 65500 bytes backward at each of the 4 paddings, 16378 table arms / 8189 lookup pairs, a short branch at every third byte of a 65535-byte method |
+//! | exception ranges | sink `rich_code`, corpus; + `big::far` (ranges ending at code_length 65535, handlers at 65534), `facts::tables` (all start/end/handler triples of 4-instruction programs x every other table), `limits` (65535 entries) |
+//! | debug tables (lines, local variables, local variable types, source file, SDE, parameters) | sinks with `split_tables`, corpus (-g -parameters); + `big::far` (pcs at 255/256, 32767/32768, 65533..65535; a label at every one of the 65536 offsets), `perm` (all 8! orders of the Code attributes), `facts::tables`, `facts::members`, `facts::utf16` (SDE of 200000 code units), `limits` (255 parameters) |
+//! | stack-map frames | `rich_code` gaps around 63/64, both encodings, corpus, suite `cldc-stack-map`; + `big::far` (offset sums up to 65534, one delta of 65534, a frame at every instruction), `facts::tables` (every subset of frame positions), `cldc` (the CLDC `StackMap` attribute hand-encoded over all programs of ≤ 3 (thorough 4) instructions x all frame position sets), `limits` (65535 locals and stack items) |
+//! | annotations (incl. type annotations, defaults) | sinks, `element-value*`, corpus; + `perm`, `facts::members`, `limits` (element values 60 deep = the reference parser's reach, 65535 pairs / array elements / type annotations, type path of 255) |
+//! | module/record/nest data, inner classes, enclosing method, permitted subclasses, signature | sinks, `module-open*`, corpus; + `facts::flags`, `facts::members` (every subset of ≤ 3 (thorough 4) entries of a 19-entry class menu), `perm`, `limits` (every table at 65535 entries) |
+//! | unrecognised attributes byte-for-byte | sinks (all five levels); + `perm`, `facts::members`, `facts::misplaced` (every JVMS attribute name in every container where the JVMS does not define it must be kept as an unknown attribute), `limits` (unknown attributes of 65535..200000 bytes at all five levels) |
+//! | nothing invented / dropped / attached to the wrong member | sdiff itemises every fact in both directions; + `facts::members`: all 2^9 field, 2^12 method, 2^8 Code, 2^6 record-component attribute subsets on one member with the complement on its neighbour and the subset again on the next, all ordered pairs of single attributes on neighbours |
+//! | independent of constant-pool layout | suite `pool-layouts` (720 permutations, rotations, pads); + `big::pool`: a pool filled to index 65534 (two-slot entries included) under first-use, reversed, Utf8-first/last and rotated orders: every kind of entry below 256, above 32767 and near 65534 |
+//! | independent of attribute order | suite rotations/reversal via the assembler; + `perm` on the bytes: per container all permutations (≤ 6, thorough ≤ 8 attributes; the 8 Code attributes of a dedicated method: all 40320 in both tiers), larger containers every ordered pair first + rotations + reversal; every corpus class with all containers reversed / rotated |
+//! | independent of instruction encoding variant | suite `encoding-product` (3^8), switch paddings, every shape sweep sequence in two encodings; + `big::dense` (every operand in shortest, plain and wide form), `big::far` (goto vs goto_w on both sides of the i16 boundary, switch paddings at the end of a 64 KiB method) |
+//! | quantifier: generated + javac corpus | corpus (357 classes), thorough: java.base |
+//! | (reader's own bounds) | + `limits`: exactly 32768 resolved bootstrap arguments must be read; more than that is refused by `pool.rs` — reported under `more-than-32768-bootstrap-arguments:reader:refused-valid-class` |
 
 use cfmodel::asm::{assemble, AsmError, Encoding, PoolOrder};
 use cfmodel::gen::*;
@@ -18,12 +47,63 @@ use cfmodel::model::*;
 use rayon::prelude::*;
 use vcore::{json, Ctx, Stats, Tier};
 
-fn replay_text(label: &str, bytes: &[u8]) -> String {
-	format!("label={label}\nclass file bytes (hex):\n{}", vcore::hex(bytes))
+#[path = "c01/perm.rs"]
+mod perm;
+#[path = "c01/big.rs"]
+mod big;
+#[path = "c01/facts.rs"]
+mod facts;
+#[path = "c01/cldc.rs"]
+mod cldc;
+#[path = "c01/limits.rs"]
+mod limits;
+
+/// hex with a lookup table (the replay text of a 2 MiB class is built for every watched case)
+pub(crate) fn fast_hex(bytes: &[u8]) -> String {
+	const D: &[u8; 16] = b"0123456789abcdef";
+	let mut s = Vec::with_capacity(bytes.len() * 2);
+	for b in bytes {
+		s.push(D[(b >> 4) as usize]);
+		s.push(D[(b & 15) as usize]);
+	}
+	String::from_utf8(s).unwrap_or_default()
+}
+
+pub(crate) fn replay_text(label: &str, bytes: &[u8]) -> String {
+	format!("label={label}\nclass file bytes (hex):\n{}", fast_hex(bytes))
+}
+
+/// what the reader did with one class
+#[derive(Clone, Copy, PartialEq, Eq, Debug)]
+pub(crate) enum Verdict {
+	Equal,
+	Differs,
+	Refused,
+	Panicked,
+	Inconsistent,
 }
 
 /// One case: bytes of a well-formed class (+ the model it was assembled from, if generated).
-fn check_bytes(ctx: &Ctx, st: &mut Stats, label: &str, bytes: &[u8], source: Option<&SClass>) {
+pub(crate) fn check_bytes(ctx: &Ctx, st: &mut Stats, label: &str, bytes: &[u8], source: Option<&SClass>) -> Verdict {
+	check_bytes_scoped(ctx, st, label, bytes, source, scope_of(label))
+}
+
+/// The key scope of a case, from its label (so that `--replay` reports under the same key as the sweep):
+/// the CLDC `StackMap` space and the classes that exceed the reader's own bound on resolved bootstrap arguments
+/// report under keys of their own.
+pub(crate) fn scope_of(label: &str) -> &'static str {
+	if label.starts_with("cldc/") {
+		"cldc-stackmap:"
+	} else if label.starts_with("limits/nested-loadables/") && label.ends_with("/above-32768") {
+		"more-than-32768-bootstrap-arguments:"
+	} else {
+		""
+	}
+}
+
+/// `scope` (empty, or ending in ':') is put in front of every key of a difference, so that a space which
+/// explores one narrow mechanism reports under keys of its own.
+pub(crate) fn check_bytes_scoped(ctx: &Ctx, st: &mut Stats, label: &str, bytes: &[u8], source: Option<&SClass>, scope: &str) -> Verdict {
 	st.eval();
 	let reference = match cfmodel::parse(bytes) {
 		Ok(p) => p.class,
@@ -40,15 +120,15 @@ fn check_bytes(ctx: &Ctx, st: &mut Stats, label: &str, bytes: &[u8], source: Opt
 	let tree = match read {
 		Err(p) => {
 			st.outcome("panic");
-			ctx.diff(&format!("panic@{}", p.file()), &format!("reader panicked at {}: {}", p.site, p.msg), || replay_text(label, bytes));
-			return;
+			ctx.diff(&format!("{scope}panic@{}", p.file()), &format!("reader panicked at {}: {}", p.site, p.msg), || replay_text(label, bytes));
+			return Verdict::Panicked;
 		},
 		Ok(Err(e)) => {
 			st.outcome("refused");
 			let msg = format!("{e:#}");
 			let key = if reference.version.0 > 67 || (reference.version.0 == 67 && reference.version.1 != 0) { "reader:refused-version-above-67" } else { "reader:refused-valid-class" };
-			ctx.diff(key, &format!("the reader refuses a well-formed class: {}", &msg[..msg.len().min(300)]), || replay_text(label, bytes));
-			return;
+			ctx.diff(&format!("{scope}{key}"), &format!("the reader refuses a well-formed class: {}", &msg[..msg.char_indices().take_while(|(i, _)| *i < 300).last().map(|(i, c)| i + c.len_utf8()).unwrap_or(0)]), || replay_text(label, bytes));
+			return Verdict::Refused;
 		},
 		Ok(Ok(t)) => t,
 	};
@@ -56,31 +136,55 @@ fn check_bytes(ctx: &Ctx, st: &mut Stats, label: &str, bytes: &[u8], source: Opt
 		Ok(p) => p,
 		Err(e) => {
 			st.outcome("inconsistent-tree");
-			ctx.diff("reader:inconsistent-tree", &format!("the tree refers to a position that does not exist: {e}"), || replay_text(label, bytes));
-			return;
+			ctx.diff(&format!("{scope}reader:inconsistent-tree"), &format!("the tree refers to a position that does not exist: {e}"), || replay_text(label, bytes));
+			return Verdict::Inconsistent;
 		},
 	};
 	let diffs = cfmodel::sdiff::diff(&reference, &projected);
-	if diffs.is_empty() {
+	let verdict = if diffs.is_empty() {
 		st.outcome("equal");
+		Verdict::Equal
 	} else {
 		st.outcome("differs");
-	}
+		Verdict::Differs
+	};
 	for (key, detail) in diffs.0 {
-		ctx.diff(&key, &detail, || replay_text(label, bytes));
+		ctx.diff(&format!("{scope}{key}"), &detail, || replay_text(label, bytes));
 	}
 	st.sample(label.split('/').next().unwrap_or(label), || json!({"label": label, "class_file_hex": vcore::hex(&bytes[..bytes.len().min(160)]), "bytes": bytes.len(), "this_class": reference.this_class.to_string_lossy(), "methods": reference.methods.len(), "instructions": reference.methods.iter().map(|m| m.code.as_ref().map(|c| c.insns.len()).unwrap_or(0)).sum::<usize>()}));
+	verdict
 }
 
-fn check_model(ctx: &Ctx, st: &mut Stats, label: &str, model: &SClass, enc: &Encoding) {
+/// assembles `model` under `enc`; `None` = the model cannot be encoded (counted, skipped)
+pub(crate) fn assemble_or_skip(st: &mut Stats, label: &str, model: &SClass, enc: &Encoding) -> Option<Vec<u8>> {
 	match assemble(model, enc) {
-		Ok(bytes) => vcore::watched(|| replay_text(label, &bytes), || check_bytes(ctx, st, label, &bytes, Some(model))),
-		Err(AsmError::Unencodable(_)) => st.outcome("unencodable-skipped"),
+		Ok(bytes) => Some(bytes),
+		Err(AsmError::Unencodable(why)) => {
+			st.outcome("unencodable-skipped");
+			if std::env::var_os("C01_DEBUG").is_some() {
+				eprintln!("unencodable: {label}: {why}");
+			}
+			None
+		},
 		Err(AsmError::Internal(e)) => vcore::machinery_fail(&format!("{label}: assembler: {e}")),
 	}
 }
 
-fn par_models(ctx: &Ctx, cases: Vec<(String, SClass, Encoding)>) -> Stats {
+pub(crate) fn check_model(ctx: &Ctx, st: &mut Stats, label: &str, model: &SClass, enc: &Encoding) {
+	if let Some(bytes) = assemble_or_skip(st, label, model, enc) {
+		vcore::watched(|| replay_text(label, &bytes), || check_bytes(ctx, st, label, &bytes, Some(model)));
+	}
+}
+
+/// like `check_model`, for a model whose written form states less than the model holds (reserved flag
+/// bits): the reference parser must read `expected` from the assembled bytes
+pub(crate) fn check_model_expect(ctx: &Ctx, st: &mut Stats, label: &str, model: &SClass, enc: &Encoding, expected: &SClass) {
+	if let Some(bytes) = assemble_or_skip(st, label, model, enc) {
+		vcore::watched(|| replay_text(label, &bytes), || check_bytes(ctx, st, label, &bytes, Some(expected)));
+	}
+}
+
+pub(crate) fn par_models(ctx: &Ctx, cases: Vec<(String, SClass, Encoding)>) -> Stats {
 	cases.into_par_iter().fold(Stats::new, |mut st, (label, m, e)| {
 		check_model(ctx, &mut st, &label, &m, &e);
 		st
@@ -93,10 +197,12 @@ fn main() {
 		let body = vcore::replay_body(&path);
 		let hex: String = body.lines().skip_while(|l| !l.starts_with("class file bytes")).skip(1).collect();
 		let bytes = vcore::unhex(&hex).unwrap_or_else(|| vcore::machinery_fail("replay: bad hex"));
+		// the label decides the key scope (see `scope_of`)
+		let label = body.lines().find_map(|l| l.strip_prefix("label=")).unwrap_or("replay").to_owned();
 		let mut st = Stats::new();
-		check_bytes(ctx, &mut st, "replay", &bytes, None);
+		check_bytes(ctx, &mut st, &label, &bytes, None);
 		let mut st2 = Stats::new();
-		check_bytes(ctx, &mut st2, "replay", &bytes, None);
+		check_bytes(ctx, &mut st2, &label, &bytes, None);
 		ctx.finish(json!({"evaluations": 2, "distinct_nontrivial": 2, "rule": "replay of one class file, twice", "samples": [body.lines().next()]}), &[]);
 	}
 	let quick = ctx.tier == Tier::Quick;
@@ -122,14 +228,29 @@ fn main() {
 			let insns = space.nth(idx);
 			let m = class_with_method("p/Shape", insns);
 			for (k, e) in encs.iter().enumerate() {
-				if k == 1 && len >= 3 && idx % 7 != 0 {
-					continue; // the second encoding on a fixed 1/7 slice of the longer spaces (stated in bounds)
-				}
 				check_model(ctx, &mut st, &format!("shape/len{len}/{idx}/enc{k}"), &m, e);
 			}
 			st
 		}).reduce(Stats::new, Stats::merge);
 		run(&format!("shape-sweep-len{len}"), st);
+	}
+
+	// extension spaces (each returns its statistics and a bounds object; floors are registered inside)
+	let mut ext_bounds = serde_json::Map::new();
+	for (name, f) in [
+		("attribute-permutations", perm::run as fn(&'static Ctx) -> (Stats, serde_json::Value)),
+		("far-offsets-and-dense-operands", big::run),
+		("facts-flags-versions-names-members-bootstrap-tables", facts::run),
+		("cldc-stackmap", cldc::run),
+		("reader-limits-met-exactly", limits::run),
+	] {
+		let t0 = ctx.elapsed_s();
+		let (st, bounds) = f(ctx);
+		if std::env::var_os("C01_DEBUG").is_some() {
+			eprintln!("space {name}: {:.1}s", ctx.elapsed_s() - t0);
+		}
+		ext_bounds.insert(name.to_owned(), bounds);
+		run(name, st);
 	}
 
 	// 8. the vendored javac corpus (+ the JDK's java.base in the thorough tier)
@@ -168,13 +289,14 @@ fn main() {
 			"instruction_samples": samples.len(),
 			"shape_sweep_max_len": max_len,
 			"shape_alphabet": shape_alphabet().len(),
-			"shape_second_encoding": "all of lengths 1-2, every 7th sequence of length >= 3",
+			"shape_encodings": "every sequence in two encodings (shortest forms / first-use pool; widest forms / reversed pool)",
 			"form_product": "3^8 per-site forms",
 			"pool_permutations": 720,
 			"kitchen_sink_variants": 6,
 			"versions": versions().len(),
 			"corpus_classes": n_corpus,
 			"jdk_classes": n_jdk,
+			"extension": ext_bounds,
 		},
 	});
 	ctx.finish(coverage, &[
@@ -182,5 +304,8 @@ fn main() {
 		"undefined access-flag bits state nothing and are masked",
 		"class files above version 67.0 are outside the property's range",
 		"javac-17 output is covered through the vendored corpus only",
+		"byte-level attribute permutations keep a class well-formed and its statement unchanged (self-checked: the reference parser reads the same class description from the permuted bytes)",
+		"the CLDC StackMap attribute is read with the meaning its specification defines (frames in ascending offset order), as cfmodel's reference parser does",
+		"element values nested deeper than 64 and dynamic constants nested deeper than 32 are beyond the reference parser's bounds and are not explored",
 	]);
 }
